@@ -1,2 +1,3 @@
 -- root of the library: every theorem module (setup.sh builds this target)
 import AikenVerif.Props.C15
+import AikenVerif.Props.C07
